@@ -232,6 +232,10 @@ fn rnd_src(r: &mut Rng, pool: usize) -> SocketAddr {
         1 => IpAddr::V6(Ipv6Addr::new(0x2001, 0xdb8, 0, 0, 0, 0, 0, 1)),
         2 => IpAddr::V4(Ipv4Addr::new(198, 51, 100, 7)),
         3 => IpAddr::V6(Ipv6Addr::new(0, 0, 0, 0, 0, 0xffff, 0xcb00, 0x7105)), // ::ffff:203.0.113.5, a different key
+        // addresses that "defensive" code tends to special-case: unspecified, loopback, broadcast
+        5 => IpAddr::V4(Ipv4Addr::new(0, 0, 0, 0)),
+        6 => IpAddr::V6(Ipv6Addr::new(0, 0, 0, 0, 0, 0, 0, 0)),
+        7 => *r.pick(&[IpAddr::V4(Ipv4Addr::new(127, 0, 0, 1)), IpAddr::V4(Ipv4Addr::new(255, 255, 255, 255)), IpAddr::V6(Ipv6Addr::new(0, 0, 0, 0, 0, 0, 0, 1))]),
         _ => IpAddr::V4(Ipv4Addr::new(192, 0, 2, 1 + r.below(3) as u8)),
     };
     SocketAddr::new(ip, port)
@@ -741,6 +745,11 @@ fn main() {
                 let mut c = plain(20, 3, t, Beh::Silent, None); c.hdr = Hdr::None; conns.push(c); t += 140;
                 let mut c = plain(21, 4, t, Beh::Silent, None); c.hdr = mk_hdr(&mut r, 6, &src, 0); conns.push(c); t += 140;
                 st.hit("DL.stall_in_header");
+                // a complete, valid header delivered late in the budget, then silence: still ONE deadline
+                let src2 = rnd_src(&mut r, 5);
+                let mut c = plain(22, 2, t, Beh::Silent, None); c.hdr = mk_hdr(&mut r, (i % 2) as u32, &src2, timeout_s * 700); c.eff_ip = src2.ip(); conns.push(c); t += 140;
+                let mut c = plain(23, 3, t, Beh::MidFrame, None); c.hdr = mk_hdr(&mut r, ((i + 1) % 2) as u32, &src2, timeout_s * 900); c.eff_ip = src2.ip(); conns.push(c); t += 140;
+                st.hit("DL.late_header_then_stall");
             }
             let end = t + timeout_s * 1000 + 600;
             let run = run_case(0, &cfg, &conns, None, end);
@@ -769,7 +778,7 @@ fn main() {
                 let beh = if with_secret && r.chance(1, 3) { Beh::Login { pace: 0 } } else { Beh::Status };
                 let mut c = plain(id, 2 + r.below(3) as u8, t, beh.clone(), nat_of(&beh, 0));
                 if proxy.is_some() {
-                    let src = rnd_src(&mut r, if heavy { 1 + (i / 2 % 2) as usize } else { 5 });
+                    let src = rnd_src(&mut r, if heavy { 1 + (i / 2 % 2) as usize } else { 8 });
                     let kind = if heavy { *r.pick(&[0u32, 0, 0, 0, 1, 1, 1, 1, 2, 4]) } else { *r.pick(&[0u32, 0, 0, 1, 1, 1, 2, 3, 4, 5, 6, 7]) };
                     let hd = *r.pick(&[0u64, 0, 30]);
                     c.hdr = normalize(mk_hdr(&mut r, kind, &src, hd), proxy);
